@@ -14,11 +14,19 @@
     db <int>                →  fd=<0|1>
     fck <hexcmd> <args>     →  idx=<none|i,j,…> pass <args>  |  idx=… reject
     ranges                  →  w=<none|min:max:[l-r,…]> b=<…>
-    parse <cmd> <cmd> …     →  what the parser queues for the target, one token each:
-                               S<db> | F@<db>:<name,args…> | E (parser error, stop); "." if nothing
-                               (each <cmd> is name,arg,arg… as a list of byte strings)
+    parse <tdb> <map> <sdb> <off>/<cmd> …
+                            →  what parseAofCommand hands to the sender (TargetDb, TargetDbMap
+                               "-" | a:b,… , startDbId; each command with its END offset):
+                               S<db>#<off> | F@<db>#<off>:<name,args…> | E (parser error, stop); "." if nothing
+    rdb <db> <hexkey>       →  keep | drop        (rdbReplay / bisyncRdbReplay)
+    bparse <cmd> …          →  units of the bisync parser (standalone): U:<cmd>|<cmd>… (T: = source
+                               transaction), then E on a parser error, eof-in-txn; "." if nothing
+    fix <cluster> <tdb> <resume>
+                            →  ok <7 cfg fields after SyncConfig.fix> | err
 -/
 import GunYu.Model.Filter
+import GunYu.Model.FilterParse
+import GunYu.Model.Bisync
 namespace GunYu.Drive.C10
 open GunYu GunYu.Filter
 
@@ -65,23 +73,60 @@ def rlStr : Option RangeList → String
   | some rl =>
     s!"{rl.minLeft}:{rl.maxRight}:[" ++ ",".intercalate (rl.list.map (fun p => s!"{p.1}-{p.2}")) ++ "]"
 
-/-- the parser loop with `TargetDb = -1` and no db map: a select is queued
-    only when it changes the current db; a forwarded command carries it. -/
-def parseAll (f : KeyFilter) : Bool → Int → List String → List String → List String
-  | _, _, [], acc => acc.reverse
-  | bypass, cur, c :: rest, acc =>
-    match hexList? c with
-    | some (name :: argv) =>
-      match parseFilter f bypass (lower name) argv with
-      | (_, .error) => ("E" :: acc).reverse
-      | (b, .dropped) => parseAll f b cur rest acc
-      | (b, .select n) =>
-        if n != cur then parseAll f b n rest (s!"S{n}" :: acc) else parseAll f b cur rest acc
-      | (b, .forward cmd args) =>
-        parseAll f b cur rest ((s!"F@{cur}:" ++ hexListStr (cmd :: args)) :: acc)
-    | _ => ("bad-cmd" :: acc).reverse
+def dbMap? (s : String) : Option (List (Int × Int)) :=
+  if s == "-" then some []
+  else (s.splitOn ",").mapM (fun kv =>
+    match kv.splitOn ":" with
+    | [a, b] => do pure ((← int? a), (← int? b))
+    | _ => none)
+
+/-- "<endoff>/<name,arg,…>" -/
+def raw? (s : String) : Option Sender.Raw :=
+  match s.splitOn "/" with
+  | [o, c] =>
+    match o.toNat?, hexList? c with
+    | some off, some (name :: argv) => some { cmd := lower name, args := argv, off := off }
+    | _, _ => none
+  | _ => none
+
+def itemStr (i : Sender.Item) : String :=
+  if i.cmd == Sender.bSelect && i.args == [intToDec i.db] && i.db ≥ 0 then s!"S{i.db}#{i.offset}"
+  else s!"F@{i.db}#{i.offset}:" ++ hexListStr (i.cmd :: i.args)
+
+/-- the real parser loop (Model/Sender.lean `parseStep` under the concrete
+    filter): what is handed to the sender, "E" when the parser fails -/
+def parseOut (c : Sender.PCfg) : Sender.PState → List Sender.Raw → List String → List String
+  | _, [], acc => acc.reverse
+  | s, r :: rest, acc =>
+    match Sender.parseStep c s r with
+    | (_, .fail) => ("E" :: acc).reverse
+    | (s', .skip) => parseOut c s' rest acc
+    | (s', .emit i) => parseOut c s' rest (itemStr i :: acc)
+
+def cfgFieldsStr (c : FilterCfg) : String :=
+  let ints (l : List Int) := if l.isEmpty then "." else ",".intercalate (l.map toString)
+  let ent (e : List Nat) := if e.isEmpty then "e" else "_".intercalate (e.map toString)
+  let slots (l : List (List Nat)) := if l.isEmpty then "." else ";".intercalate (l.map ent)
+  " ".intercalate [hexListStr c.cmdBlack, hexListStr c.cmdWhite, ints c.dbBlack, hexListStr c.prefWhite,
+    hexListStr c.prefBlack, slots c.slotWhite, slots c.slotBlack]
+
+def bisyncCmdStr (c : BisyncUnit.Cmd) : String := hexListStr (c.name :: c.args)
+
+def bisyncItems? : List String → Option (List BisyncUnit.Cmd)
+  | [] => some []
+  | t :: rest =>
+    match hexList? t, bisyncItems? rest with
+    | some (name :: argv), some l => some (⟨name, argv⟩ :: l)
+    | _, _ => none
 
 def handle : List String → Option (List String)
+  | "c10" :: "fix" :: _mode :: cb :: cw :: db :: pw :: pb :: sw :: sb :: [cluster, tdb, resume] =>
+    match cfg? cb cw db pw pb sw sb, int? tdb with
+    | some c, some tdb =>
+      match configFix (cluster == "1") tdb (resume == "1") c with
+      | none => some ["err"]
+      | some c' => some ["ok " ++ cfgFieldsStr c']
+    | _, _ => some ["bad-op"]
   | "c10" :: op :: mode :: cb :: cw :: db :: pw :: pb :: sw :: sb :: rest =>
     match mk? mode cb cw db pw pb sw sb with
     | none => some ["bad-cfg"]
@@ -110,9 +155,37 @@ def handle : List String → Option (List String)
           | some out => some [s!"idx={idx} pass {hexListStr out}"]
         | _, _ => some ["bad-op"]
       | "ranges", [] => some [s!"w={rlStr f.slotWhite} b={rlStr f.slotBlack}"]
-      | "parse", cmds =>
-        let out := parseAll f false (-1) cmds []
-        some [if out.isEmpty then "." else " ".intercalate out]
+      | "parse", tdb :: mp :: sdb :: cmds =>
+        match int? tdb, dbMap? mp, int? sdb, cmds.mapM raw? with
+        | some tdb, some mp, some sdb, some raws =>
+          let pc := pcfgOf f tdb mp sdb
+          let pre := if sdb > 0 then [itemStr (Sender.selectItem sdb 0)] else []
+          let out := pre ++ parseOut pc { lastSent := 0 } raws []
+          some [if out.isEmpty then "." else " ".intercalate out]
+        | _, _, _, _ => some ["bad-op"]
+      | "brdb", [d, h] =>
+        match int? d, Hex.decode h with
+        | some d, some k => some [if rdbKeep f d k then "keep" else "drop"]
+        | _, _ => some ["bad-op"]
+      | "rdb", [d, h] =>
+        match int? d, Hex.decode h with
+        | some d, some k => some [if rdbKeep f d k then "keep" else "drop"]
+        | _, _ => some ["bad-op"]
+      | "bparse", cmds =>
+        match bisyncItems? cmds with
+        | none => some ["bad-op"]
+        | some cs =>
+          let cfg : Bisync.PCfg := { filter := f, mode := BisyncUnit.standaloneMode,
+                                     resolver := BisyncUnit.resolverWith (fun _ _ => .err) }
+          let (ems, _, err) := Bisync.parse cfg {} (Bisync.items 0 cs) []
+          let us := ems.map (fun e =>
+            (if e.sourceTxn then "T:" else "U:") ++ "|".intercalate (e.unit.cmds.map bisyncCmdStr))
+          let tail := match err with
+            | none => []
+            | some .eofInTxn => ["eof-in-txn"]
+            | some _ => ["E"]
+          let out := us ++ tail
+          some [if out.isEmpty then "." else " ".intercalate out]
       | _, _ => some ["bad-op"]
   | _ => none
 
